@@ -267,10 +267,16 @@ class OperationGroup(ContextMixin, ContentMixin):
             logger.warning('`branch_offset` argument is deprecated, use `ttl` instead')
             ttl = MAX_OPERATIONS_TTL - kwargs['branch_offset']
 
+        saved_counter = self.context.counter
         opg = self.fill(counter=counter, ttl=ttl)
-        opg_with_metadata = opg.run()
-        if not OperationResult.is_applied(opg_with_metadata):
-            raise RpcError.from_errors(OperationResult.errors(opg_with_metadata))
+        try:
+            opg_with_metadata = opg.run()
+            if not OperationResult.is_applied(opg_with_metadata):
+                raise RpcError.from_errors(OperationResult.errors(opg_with_metadata))
+        except RpcError:
+            # nothing is returned to the caller: give back the counters taken by fill()
+            self.context.counter = saved_counter
+            raise
 
         fee_acc = 0
         signature_size = 96 if self.key.public_key_hash().startswith('tz4') else 64
